@@ -123,7 +123,7 @@ PROPS = {
         "assumptions": ["sequentially consistent interleavings at the granularity of the client's own critical sections (client.mutex, one "
                         "Conn.Write per frame, the single reader goroutine); weak-memory effects are not modelled",
                         "Done channels have room for every call that shares them (the documented obligation of Go)",
-                        "the reduction argument of DESIGN.md section 3: the steps after a critical section touch only objects it made private"],
+                        "the reduction from statement-level to critical-section-level interleavings (DESIGN.md section 3) rests on: the steps after a critical section touch only the call it made private - proved for the statement-level paths regenerated from client/client.go (Client/PendingProofs.v, tools/gopending2v); that the statement-level operations mean what Client/Pending.v says (exec) is a reading of Go, not checked"],
         "trusted": ["/repo/verifhook (build tag verif): instrumentation points client.send.enter / client.send.exit gate and observe send()",
                     "/repo/client/verif_export.go: VerifPendingLen, VerifPendingSeqs",
                     "client.ConnFactories[\"vsim\"] (existing extension point): scripted transport owned by the harness",
@@ -137,16 +137,19 @@ PROPS = {
     },
     "C05": {
         "onep": True,
+        "generated": ["gopending2v"],
         "rule": "350 (thorough 8000) random schedules: 1-5 calls (Go, blocking Call, SendRaw, one-way), each stepping through "
                 "registration / encode ok or failure / write ok or failure, interleaved with response frames (ok, service error, wrong "
                 "type, unknown codec, pushes, strays), context cancellation, Close, reader termination (clean EOF, or cut inside header / "
                 "length / body); every run is driven to quiescence and every Done channel drained; distinct = distinct model-input line; "
                 "non-trivial = at least 2 calls or 4 events",
-        "theorems": ["C05_never_signalled_twice", "C05_no_call_left_hanging", "C05_rejected_promptly", "C05_invariants_reachable"],
+        "theorems": ["C05_never_signalled_twice", "C05_no_call_left_hanging", "C05_rejected_promptly", "C05_invariants_reachable",
+                     "C05_the_client_paths_obey_the_discipline", "C05_no_call_completes_twice_under_any_interleaving",
+                     "C05_no_call_is_left_in_the_table_of_a_client_that_shut_down"],
         "assumptions": ["sequentially consistent interleavings at the granularity of the client's own critical sections (client.mutex, one "
                         "Conn.Write per frame, the single reader goroutine); weak-memory effects are not modelled",
                         "Done channels have room for every call that shares them (the documented obligation of Go)",
-                        "the reduction argument of DESIGN.md section 3: the steps after a critical section touch only objects it made private"] + ["no-hang is the safety formulation 'gone and quiescent implies completed'; real-time promptness is not modelled",
+                        "the reduction from statement-level to critical-section-level interleavings (DESIGN.md section 3) rests on: the steps after a critical section touch only the call it made private - proved for the statement-level paths regenerated from client/client.go (Client/PendingProofs.v, tools/gopending2v); that the statement-level operations mean what Client/Pending.v says (exec) is a reading of Go, not checked"] + ["no-hang is the safety formulation 'gone and quiescent implies completed'; real-time promptness is not modelled",
                         "premise of no-hang: no SendRaw used a caller-chosen sequence number equal to an in-flight one (collided = false)"],
         "trusted": ["/repo/verifhook (build tag verif): instrumentation points client.send.enter / client.send.exit gate and observe send()",
                     "/repo/client/verif_export.go: VerifPendingLen, VerifPendingSeqs",
@@ -156,19 +159,22 @@ PROPS = {
                       "removes its entry from the pending map under the mutex); once the connection is gone and no write is outstanding "
                       "every started call has been completed exactly once; new calls are rejected at once. Run against the real client "
                       "under forced schedules incl. the two schedules on which the unrepaired client signalled twice.",
-        "level_note": "Trusted: Coq kernel, extraction, rig and hooks. Modelled, not verified: client/client.go.",
+        "level_note": "Trusted: Coq kernel, extraction, rig and hooks, translator tools/gopending2v (path enumeration of send, SendRaw, "
+                      "call, input, Close; refuses what it does not know). Modelled, not verified: client/client.go.",
     },
     "C06": {
         "onep": True,
+        "generated": ["gopending2v"],
         "rule": "(the scripted transport honours write deadlines; Go calls with an already expired context deadline and cancellation before registration are among the aggressors) exhaustive victim/aggressor enumeration (victim first or later x aggressor in {cancelled before registration, after "
                 "registration, after write, unencodable argument, mistyped reply, one-way, service error, unknown codec, write failure} x 3 "
                 "relative orders) plus 350 (thorough 8000) random schedules with 2-3 calls; distinct = distinct model-input line; "
                 "non-trivial = at least 2 calls",
-        "theorems": ["C06_own_steps_are_local", "C06_received_frame_is_local", "C06_connection_not_torn_down"],
+        "theorems": ["C06_own_steps_are_local", "C06_received_frame_is_local", "C06_connection_not_torn_down",
+                     "C06_a_call_is_touched_only_by_the_goroutine_that_holds_it"],
         "assumptions": ["sequentially consistent interleavings at the granularity of the client's own critical sections (client.mutex, one "
                         "Conn.Write per frame, the single reader goroutine); weak-memory effects are not modelled",
                         "Done channels have room for every call that shares them (the documented obligation of Go)",
-                        "the reduction argument of DESIGN.md section 3: the steps after a critical section touch only objects it made private"],
+                        "the reduction from statement-level to critical-section-level interleavings (DESIGN.md section 3) rests on: the steps after a critical section touch only the call it made private - proved for the statement-level paths regenerated from client/client.go (Client/PendingProofs.v, tools/gopending2v); that the statement-level operations mean what Client/Pending.v says (exec) is a reading of Go, not checked"],
         "trusted": ["/repo/verifhook (build tag verif): instrumentation points client.send.enter / client.send.exit gate and observe send()",
                     "/repo/client/verif_export.go: VerifPendingLen, VerifPendingSeqs",
                     "client.ConnFactories[\"vsim\"] (existing extension point): scripted transport owned by the harness",
@@ -177,7 +183,7 @@ PROPS = {
                       "entry unchanged (unless sequence numbers are shared via SendRaw), a received frame touches only the call registered "
                       "under its seq whatever it carries, and only reader termination / Close change the connection state. Run against the "
                       "real client incl. the two schedules on which the unrepaired client broke isolation.",
-        "level_note": "Trusted: Coq kernel, extraction, rig and hooks. Modelled, not verified: client/client.go.",
+        "level_note": "Trusted: Coq kernel, extraction, rig and hooks, translator tools/gopending2v. Modelled, not verified: client/client.go.",
     },
     "C10": {
         "onep": True,
